@@ -633,7 +633,7 @@ func (i *Iter) Int() (int64, error) {
 			return 0, errors.New("corrupt input: expected float, but no more values on tape")
 		}
 		v := math.Float64frombits(i.tape.Tape[i.off])
-		if v > math.MaxInt64 {
+		if v >= math.MaxInt64 {
 			return 0, errors.New("float value overflows int64")
 		}
 		if v < math.MinInt64 {
@@ -683,7 +683,7 @@ func (i *Iter) Uint() (uint64, error) {
 			return 0, errors.New("corrupt input: expected float, but no more values on tape")
 		}
 		v := math.Float64frombits(i.tape.Tape[i.off])
-		if v > math.MaxUint64 {
+		if v >= math.MaxUint64 {
 			return 0, errors.New("float value overflows uint64")
 		}
 		if v < 0 {
